@@ -335,6 +335,8 @@ def _run(ctx):
                 for st_ in node.body:
                     if isinstance(st_, ast.AnnAssign) and isinstance(st_.target, ast.Name):
                         written.add(st_.target.id)           # NamedTuple / dataclass style fields
+                    if isinstance(st_, ast.Assign):
+                        written.update(t_.id for t_ in st_.targets if isinstance(t_, ast.Name))   # class constants, enum members
                     if isinstance(st_, ast.Assign) and any(isinstance(t_, ast.Name) and t_.id == "__slots__" for t_ in st_.targets):
                         for e in ast.walk(st_.value):
                             if isinstance(e, ast.Constant) and isinstance(e.value, str):
